@@ -6,18 +6,10 @@ client's side, a second crash.
 -/
 namespace BqVerif.Crash
 
-theorem no_wake {t : Topo} {s s' : State} (hi : Inv t s) {n c : Nat}
-    (h : step t s (.wake n c) = some s') : False := by
-  simp only [step, wake] at h
-  have := hi.half n
-  simp only [State.view] at this
-  simp [this] at h
-
 /-- one step of the accounting: potential + critical ≤ potential + growth -/
-theorem potential_step {t : Topo} {s s' : State} {l : Label} (d : Nat) (h : step t s l = some s')
-    (hw : ∀ n c, l ≠ .wake n c) :
+theorem potential_step {t : Topo} {s s' : State} {l : Label} (d : Nat) (h : step t s l = some s') :
     potential t s' d + b2n (isCrit t s d l) ≤ potential t s d + growth t s d l := by
-  have hwle := step_wle h hw
+  have hwle := step_wle h
   have quiet : gAt s l = (fun _ => 0) → isCrit t s d l = false → growth t s d l = 0 →
       potential t s' d + b2n (isCrit t s d l) ≤ potential t s d + growth t s d l := by
     intro hg hc hgr
@@ -81,27 +73,26 @@ theorem potential_step {t : Topo} {s s' : State} {l : Label} (d : Nat) (h : step
   | crash n tr => exact quiet rfl rfl rfl
   | recvUp n em f => exact quiet rfl rfl rfl
   | recvClient c em f => exact quiet rfl rfl rfl
-  | outReset n => exact quiet rfl rfl rfl
-  | wake n c => exact absurd rfl (hw n c)
+  | flushDrop n => exact quiet rfl rfl rfl
   | wrecv w => exact quiet rfl rfl rfl
   | ccall c r => exact quiet rfl rfl rfl
   | cwake c => exact quiet rfl rfl rfl
 
-/-- the accounting over a run without outgoing-thread resets; the invariant travels along -/
+/-- the accounting over a run; the invariant travels along -/
 theorem runCount_bound {t : Topo} (wf : t.WF) (d : Nat) :
-    ∀ (ls : List Label) (s sf : State) (c g : Nat), Inv t s → (∀ l ∈ ls, l.isOutReset = false) →
+    ∀ (ls : List Label) (s sf : State) (c g : Nat), Inv t s →
       runCount t d s ls = some (sf, c, g) →
       potential t sf d + c ≤ potential t s d + g ∧ Inv t sf ∧
         (∀ i, s.gone i = true → sf.gone i = true) := by
   intro ls
   induction ls with
   | nil =>
-    intro s sf c g hi _ h
+    intro s sf c g hi h
     simp only [runCount, Option.some.injEq, Prod.mk.injEq] at h
     obtain ⟨rfl, rfl, rfl⟩ := h
     exact ⟨by omega, hi, fun _ x => x⟩
   | cons l ls ih =>
-    intro s sf c g hi hno h
+    intro s sf c g hi h
     simp only [runCount] at h
     cases hs : step t s l with
     | none => simp [hs] at h
@@ -113,29 +104,25 @@ theorem runCount_bound {t : Topo} (wf : t.WF) (d : Nat) :
         obtain ⟨sf', c', g'⟩ := r
         simp only [hr, Option.some.injEq, Prod.mk.injEq] at h
         obtain ⟨rfl, rfl, rfl⟩ := h
-        have hl := hno l (List.mem_cons_self)
-        have hi1 := step_inv wf hi hs hl
-        have hw : ∀ n c, l ≠ .wake n c := by
-          intro n c hc; subst hc; exact no_wake hi hs
-        have h1 := potential_step d hs hw
-        obtain ⟨h2, hi2, hg2⟩ := ih s1 sf' c' g' hi1 (fun l' hl' => hno l' (List.mem_cons_of_mem _ hl')) hr
-        exact ⟨by omega, hi2, fun i x => hg2 i ((step_wle hs hw).gone i x)⟩
+        have hi1 := step_inv wf hi hs
+        have h1 := potential_step d hs
+        obtain ⟨h2, hi2, hg2⟩ := ih s1 sf' c' g' hi1 hr
+        exact ⟨by omega, hi2, fun i x => hg2 i ((step_wle hs).gone i x)⟩
 
 theorem run_inv {t : Topo} (wf : t.WF) :
-    ∀ (ls : List Label) (s sf : State), Inv t s → (∀ l ∈ ls, l.isOutReset = false) →
+    ∀ (ls : List Label) (s sf : State), Inv t s →
       run t s ls = some sf → Inv t sf := by
   intro ls
   induction ls with
-  | nil => intro s sf hi _ h; simp only [run, Option.some.injEq] at h; subst h; exact hi
+  | nil => intro s sf hi h; simp only [run, Option.some.injEq] at h; subst h; exact hi
   | cons l ls ih =>
-    intro s sf hi hno h
+    intro s sf hi h
     simp only [run] at h
     cases hs : step t s l with
     | none => simp [hs] at h
     | some s1 =>
       simp only [hs] at h
-      exact ih s1 sf (step_inv wf hi hs (hno l List.mem_cons_self))
-        (fun l' hl' => hno l' (List.mem_cons_of_mem _ hl')) h
+      exact ih s1 sf (step_inv wf hi hs) h
 
 /-! ### progress -/
 
@@ -174,10 +161,8 @@ theorem progress {t : Topo} (wf : t.WF) {s : State} (hi : Inv t s) {d : Nat} (hd
   have hloop : s.loopOk t (t.parent e) = true := by
     unfold State.loopOk
     have hk := wf.pk e (Nat.pos_of_ne_zero he0)
-    have hh := hi.half (t.parent e)
-    simp only [State.view] at hh
-    simp only [Bool.and_eq_true, decide_eq_true_eq, bne_iff_ne, ne_eq, Bool.not_eq_true']
-    exact ⟨⟨⟨⟨by omega, hk⟩, hgp'.1⟩, hgp'.2⟩, hh⟩
+    simp only [Bool.and_eq_true, decide_eq_true_eq, bne_iff_ne, ne_eq]
+    exact ⟨⟨⟨by omega, hk⟩, hgp'.1⟩, hgp'.2⟩
   have hdo : s.downOpen e = true := (hi.down _ e hch hgp'.1 hgp'.2).1
   have heof : (s.alive e && s.upOpen e) = false := by
     unfold State.gone at hge
@@ -237,7 +222,7 @@ theorem systemError_toClient (t : Topo) (s : State) {p : Nat} (hp : p ≠ 0) :
 theorem loopOk_running {t : Topo} {s : State} {p : Nat} (h : s.loopOk t p = true) : s.running p = true := by
   unfold State.loopOk at h
   simp only [Bool.and_eq_true] at h
-  exact h.1.2
+  exact h.2
 
 /-- after `running = False` at the server, no transition appends anything to a
 server -> client channel: the channel only shrinks (the client reads). -/
@@ -327,26 +312,15 @@ theorem no_result_after {t : Topo} {s s' : State} {l : Label} (hr : s.running 0 
       have hn0 : n = 0 := by simpa using hn
       subst hn0
       rw [hr] at hrn; cases hrn
-  | outReset n =>
+  | flushDrop n =>
     simp only [step] at h
-    unfold outReset at h
+    unfold flushDrop at h
     split at h
     · cases h
     split at h
-    · split at h
-      · cases h
-      cases h
-      exact same rfl
     · cases h
-  | wake n c' =>
-    simp only [step, wake] at h
-    split at h
-    · cases h
-    split at h
-    · split at h <;> cases h
-      exact same rfl
-    · split at h <;> cases h
-      exact same rfl
+    split at h <;> cases h
+    exact same rfl
   | wsend w m =>
     simp only [step] at h
     unfold wsend at h
@@ -391,18 +365,8 @@ theorem no_result_after {t : Topo} {s s' : State} {l : Label} (hr : s.running 0 
 
 /-- `running` never comes back (any transition) -/
 theorem running_mono {t : Topo} {s s' : State} {l : Label} (h : step t s l = some s') (i : Nat)
-    (hr : s'.running i = true) : s.running i = true := by
-  by_cases hw : ∃ n c, l = .wake n c
-  · obtain ⟨n, c, rfl⟩ := hw
-    simp only [step, wake] at h
-    split at h
-    · cases h
-    split at h
-    · split at h <;> cases h
-      exact hr
-    · split at h <;> cases h
-      exact hr
-  · exact (step_wle h (fun n c x => hw ⟨n, c, x⟩)).running i hr
+    (hr : s'.running i = true) : s.running i = true :=
+  (step_wle h).running i hr
 
 /-- over a whole run -/
 theorem no_result_after_run {t : Topo} :
